@@ -592,6 +592,7 @@ func c10Explore(sb *proj.Sandbox, p hprog, tier string) c10Result {
 											res.Viol = append(res.Viol, ev.Violation{Engine: "crashmc", Key: fmt.Sprintf("%s: %s ; CRASH(%s)@%d/%d%s", p.Name, traceString(states, si), op.String(), pt.k, pt.torn, path),
 												Class: cls, What: crashDesc + ", then" + path + ": " + what,
 												Case: map[string]any{"program": p, "crash_disk": cd, "crash_model": cm, "steps": steps}})
+											pool.Note(res.Viol[len(res.Viol)-1])
 										}
 									}
 									res.Outcomes[key]++
@@ -730,7 +731,14 @@ func c10Check(tier string) int {
 		defer os.RemoveAll(sbroot)
 		out := pool.RunWorker([]string{"c10", tier, strconv.Itoa(k)}, nil, budget(tier), true, "VERIF_SANDBOX="+sbroot)
 		if out.TimedOut && out.ExitCode != 3 {
-			// the wall-clock budget ran out (a loaded machine, a slower tree): not a verdict about the property
+			// the wall-clock budget ran out (a loaded machine, a slower tree): not a verdict about the property -
+			// but what the worker had found by then is (it notes findings as it goes)
+			for _, n := range out.Notes {
+				var v ev.Violation
+				if json.Unmarshal(n, &v) == nil && v.Class != "" {
+					run.Report(v)
+				}
+			}
 			run.Add("workers_out_of_budget", 1)
 			run.Set("exhaustive", false)
 			run.Set("cap", "a worker exceeded the wall-clock budget of this tier; its share of the space was not completed")
